@@ -192,6 +192,31 @@ func classify(msg string) string {
 // body returns the function run under the scheduler and a function extracting the delivered numbers.
 func (sc scen) body() (func(), func() ([]int, string)) {
 	switch sc.Kind {
+	case "tbuf-collector-twice":
+		// two collections in a row into ONE slice (two parts into one mesh; round 9): the first half of the batch list,
+		// then the second half; the slice holds every item of both, in order
+		var tris []*sdf.Triangle3
+		return func() {
+				tris = nil
+				k := len(sc.Batches[0]) / 2
+				base := 0
+				for _, part := range [][]int{sc.Batches[0][:k], sc.Batches[0][k:]} {
+					var cwg vsync.WaitGroup
+					out := sdf.WriteTriangles(&cwg, &tris)
+					w := sdf.NewTriangle3Buffer(out)
+					producer3(w, base, part, make([]*sdf.Triangle3, 4200))
+					w.Close()
+					out.Close()
+					cwg.Wait()
+					base += total(part)
+				}
+			}, func() ([]int, string) {
+				var got []int
+				for _, t := range tris {
+					got = append(got, int(t[0].X))
+				}
+				return got, ""
+			}
 	case "tbuf", "tbuf-collector":
 		var got []int
 		var chunks []int
@@ -295,11 +320,20 @@ func (sc scen) body() (func(), func() ([]int, string)) {
 			}
 			return got, ""
 		}
-	case "tostl":
+	case "tostl", "savestl":
 		return func() {
 				vos.Reset(nil)
 				if len(sc.Before) > 0 {
 					render.ToSTL(dummy3{}, "out.stl", scripted3{sc.Before})
+				}
+				if sc.Kind == "savestl" {
+					// the batch writer of the format (round 9): the whole list in one call
+					ts := make([]*sdf.Triangle3, total(sc.Batches[0]))
+					for i := range ts {
+						ts[i] = tri(i)
+					}
+					render.SaveSTL("out.stl", ts)
+					return
 				}
 				render.ToSTL(dummy3{}, "out.stl", scripted3{sc.Batches[0]})
 			}, func() ([]int, string) {
@@ -682,6 +716,14 @@ func main() {
 				bs = append(bs, min(left, 100))
 			}
 			scens = append(scens, scen{Kind: "tostl", Batches: [][]int{bs}, Bound: -1})
+		}
+	}
+	for _, n := range []int{0, 1, 2, 5, T - 1, T, T + 1, 2*T - 1, 2 * T, 2*T + 3, 1000, 1310, 4096} {
+		scens = append(scens, scen{Kind: "savestl", Batches: [][]int{{n}}, Bound: -1}, scen{Kind: "savestl", Batches: [][]int{{n}}, Before: []int{300}, Bound: -1})
+	}
+	for _, sq := range seqs([]int{0, 1, 5, T}, 3) {
+		if len(sq) >= 2 {
+			scens = append(scens, scen{Kind: "tbuf-collector-twice", Batches: [][]int{sq}, Bound: -1})
 		}
 	}
 	// a longer render to the same path first: the sink must hold exactly the second render
